@@ -394,3 +394,22 @@ func HarnessC01StepShared() {
 	vObserve("n", int64(len(got)))
 	vReach("end")
 }
+
+// const/step over long runs: the number of operations for durations up to 48 h (up to 1.7e11
+// operations: products of rate and duration that do not fit into 63 bits when counted in ns).
+func HarnessC01ConstCountLong() {
+	ops := vNondetRatio("ops", 0, 16_000_000, 16) // [0, 1e6]
+	sec := vNondetInt("sec", 0, 172800)
+	ns := vNondetInt("ns", 0, 999_999_999)
+	dur := time.Duration(sec*1_000_000_000 + ns)
+	vAssume(dur >= time.Millisecond)
+	s := NewConst(ops, dur).(*doAtSchedule)
+	n := s.n
+	vObserve("n", n)
+	vCheck("const.long.n.nonneg", n >= 0)
+	I := ops * float64(dur) / 1e9
+	vCheck("const.long.count.lower", float64(n) <= I)
+	vCheck("const.long.count.upper", I < float64(n)+1)
+	vCheck("const.long.left", int64(s.Left()) == n)
+	vReach("end")
+}
